@@ -21,6 +21,7 @@ type RunResult struct {
 	Steps      int        `json:"steps"`
 	Events     int        `json:"events"`
 	Sample     string     `json:"sample,omitempty"`
+	Digest     string     `json:"digest,omitempty"` // digest of the ledger history (cross-process determinism)
 	Extra      map[string]any `json:"extra,omitempty"`
 }
 
@@ -91,6 +92,18 @@ func stdLoop(ps *PropSpec, w *World, tr *Trace, gen *Gen, check func(final bool)
 		}
 		if ps.isVerdict(v.Class) {
 			return v, nil
+		}
+		// A divergence outside this property's oracles: evaluate the property's own oracles
+		// once on the current state, then cut the run (DESIGN 6, "one property per check").
+		if check != nil {
+			var v2 *Violation
+			func() {
+				defer func() { _ = recover() }()
+				v2 = check(true)
+			}()
+			if v2 != nil && ps.isVerdict(v2.Class) {
+				return v2, nil
+			}
 		}
 		return nil, v
 	}
